@@ -148,6 +148,15 @@ func rtCheckSkip(rep *Report, in []byte, wellFormed bool) {
 		}
 	} else if wellFormed {
 		rep.Inconclusive("C15", "generated-record-rejected-by-protowire")
+	} else if err == nil && n <= len(in) {
+		// not required by the property (it speaks about well-formed input); counted to show how far the skipper
+		// and protowire agree on what they refuse.  (A length beyond the input is refused by every caller.)
+		rep.Count("C15", "skip-accepts-what-protowire-rejects", 1)
+		if len(rep.Notes) < 5 && len(in) < 40 {
+			rep.Notes = append(rep.Notes, fmt.Sprintf("Skip accepts %x (length %d), protowire rejects it", in, n))
+		}
+	} else {
+		rep.Count("C15", "skip-and-protowire-both-reject", 1)
 	}
 }
 
@@ -255,6 +264,23 @@ func engineRT(rep *Report) {
 				rep.Violate("C15", "rt/encodevarint-concurrent", "runtime", "EncodeVarint called from 8 goroutines on private buffers: "+f, map[string]interface{}{"engine": "rt", "fn": "EncodeVarint", "concurrent": true})
 				break
 			}
+		}
+	}
+	// ---- Skip: one unknown group holding 10001..12000 closed sibling groups (nesting depth 2, well-formed)
+	if si == 0 {
+		for _, n := range []int{10001, 12000} {
+			in := protowire.AppendTag(nil, 7, protowire.StartGroupType)
+			for k := 0; k < n; k++ {
+				in = protowire.AppendTag(in, protowire.Number(1+k%5), protowire.StartGroupType)
+				if k%3 == 0 {
+					in = protowire.AppendVarint(protowire.AppendTag(in, 2, protowire.VarintType), uint64(k))
+				}
+				in = protowire.AppendTag(in, protowire.Number(1+k%5), protowire.EndGroupType)
+			}
+			in = protowire.AppendTag(in, 7, protowire.EndGroupType)
+			rtCheckSkip(rep, in, true)
+			rep.Eval("C15", in, true)
+			rep.Count("C15", "skip-many-sibling-groups", 1)
 		}
 	}
 	// ---- Skip
